@@ -420,6 +420,188 @@ Fixpoint serve (c : cfg) (fuel : nat) (hf : nat -> handlers) (idx : nat) (p : ps
 Definition serve_all (c : cfg) (hf : nat -> handlers) (toks : list token) : sres :=
   serve c (S (length toks)) hf 0 (mkp toks 0%N false).
 
+(* ---- outstanding correlated requests (Session.sentStanzas, handleInputStream's
+   lookup, iqResponder; xmlstream.Inner / Wrap / MultiReader) ----
+
+   SendIQ, SendMessage and SendPresence register the id and the name of the
+   element they send and wait for the element that answers it. The table of
+   these registrations is an input of the history: other goroutines change it
+   between any two elements ([env] of [serve_p]). An entry also says how its
+   waiter behaves: whether its context is still live (it takes the response it
+   is offered) and what it reads of the response before closing it. *)
+
+Record pentry := mkpe {
+  pe_id : bytes;          (* key of the map *)
+  pe_name : name;         (* tokenReadChan.stanzaName: name of the element that was sent *)
+  pe_live : bool;         (* false: its context is done, the offer is not taken *)
+  pe_prog : handler       (* what the waiter reads of the response (its writes do not go here) *)
+}.
+
+Definition ptable := list pentry.
+
+(* when the table is consulted at all: the condition is read from the source *)
+Definition consults (iq_ok : bool) (typ : bytes) : bool :=
+  (sv_lookup_any_iq && iq_ok) || in_list typ sv_lookup_types.
+
+(* s.sentStanzas[id] *)
+Fixpoint pt_find (id : bytes) (tb : ptable) : option pentry :=
+  match tb with
+  | [] => None
+  | e :: r => if bytes_eqb (pe_id e) id then Some e else pt_find id r
+  end.
+
+(* delete(s.sentStanzas, id) *)
+Fixpoint pt_remove (id : bytes) (tb : ptable) : ptable :=
+  match tb with
+  | [] => []
+  | e :: r => if bytes_eqb (pe_id e) id then r else e :: pt_remove id r
+  end.
+
+(* readerChan.stanzaName == start.Name || readerChan.stanzaName == xml.Name{Local: start.Name.Local} *)
+Definition name_accepts (pn n : name) : bool := name_eqb pn n || name_eqb pn (mkname [] (nlocal n)).
+
+(* the waiter the element <n a'> is handed to, if any *)
+Definition diverted_to (tb : ptable) (n : name) (a' : list attr) : option pentry :=
+  if consults (is_iq n) (snd (get_id_typ a')) then
+    match pt_find (fst (get_id_typ a')) tb with
+    | Some e => if name_accepts (pe_name e) n then Some e else None
+    | None => None
+    end
+  else None.
+
+(* xmlstream.Inner over the per-element stream reader: like InnerElement, but
+   the end tag of the element itself is swallowed *)
+Definition in_token (ws : bool) (s : rst) : rres * rst :=
+  let '(r, s') := ie_token ws s in
+  match fst r, r_count s' with
+  | Some (TEnd _), None => ((None, Some EEOF), s')
+  | _, _ => (r, s')
+  end.
+
+(* xmlstream.Wrap(inner, start) = MultiReader(Token(start), inner, Token(start.End())):
+   phase 0 before the start tag, 1 inside, 2 after the end tag. The end tag comes
+   together with io.EOF (the last reader of a MultiReader). *)
+Definition wr_token (ws : bool) (n : name) (a' : list attr) (ph : nat) (s : rst) : rres * nat * rst :=
+  match ph with
+  | 0 => ((Some (TStart n a'), None), 1, s)
+  | 1 => let '(r, s1) := in_token ws s in
+         match r with
+         | (None, Some EEOF) => ((Some (TEnd n), Some EEOF), 2, s1)
+         | _ => (r, 1, s1)
+         end
+  | _ => ((None, Some EEOF), 2, s)
+  end.
+
+(* the waiter reads the response and closes it *)
+Fixpoint run_w (ws : bool) (n : name) (a' : list attr) (h : handler) (ph : nat) (s : rst) (seen : list rres)
+  : rst * list rres :=
+  match h with
+  | HRet _ => (s, rev seen)
+  | HRd k => let '(r, ph', s') := wr_token ws n a' ph s in run_w ws n a' (k r) ph' s' (r :: seen)
+  | HWr _ k => run_w ws n a' k ph s seen
+  end.
+
+(* xmlstream.Copy(discard, inner) *)
+Fixpoint drain_in (ws : bool) (fuel : nat) (s : rst) : option err * rst :=
+  match fuel with
+  | O => (Some EFuel, s)
+  | S f =>
+      let '(r, s') := in_token ws s in
+      match snd r with
+      | Some EEOF => (None, s')
+      | Some e => (Some e, s')
+      | None => drain_in ws f s'
+      end
+  end.
+
+(* an element handed to a waiter instead of the handler *)
+Record dinv := mkdinv {
+  d_name : name; d_attrs : list attr;
+  d_id : bytes;            (* the table entry used *)
+  d_taken : bool;          (* the waiter took it (false: its context was done; nobody sees the element) *)
+  d_seen : list rres;      (* what the waiter's Token() calls returned *)
+  d_ret : option err       (* what handleInputStream returned *)
+}.
+
+Inductive pres :=
+| PH (h : hres)            (* not diverted: as [his] *)
+| PDiv (d : dinv).
+
+(* handleInputStream with the table of outstanding requests *)
+Definition his_p (c : cfg) (fuel : nat) (tb : ptable) (hf : handlers) (p : pst) : pres * pst * ptable :=
+  let s0 := mkr p false 0%N (Some O) None in
+  let '(r, s1) := i_token (c_ws c) s0 in
+  let plain := let '(h, p') := his c fuel hf p in (PH h, p', tb) in
+  match r with
+  | (Some (TStart n a), None) =>
+      let a' := shown_attrs c n a in
+      match diverted_to tb n a' with
+      | Some e =>
+          let '(s2, seen) := if pe_live e then run_w (c_ws c) n a' (pe_prog e) 0 s1 [] else (s1, []) in
+          let '(er, s3) := drain_in (c_ws c) fuel s2 in
+          (PDiv (mkdinv n a' (pe_id e) (pe_live e) seen er), r_p s3,
+           (* a waiter that took the response has returned from sendResp, which
+              unregisters it, before it can close the response *)
+           if pe_live e then pt_remove (pe_id e) tb else tb)
+      | None => plain
+      end
+  | _ => plain
+  end.
+
+Inductive event := EvInv (v : inv) | EvDiv (d : dinv).
+
+Record sres_p := mksp {
+  sp_ret : option err;
+  sp_events : list event;    (* handler invocations and diverted elements in order *)
+  sp_rest : pst
+}.
+
+Definition sp_cons (ev : event) (r : sres_p) : sres_p := mksp (sp_ret r) (ev :: sp_events r) (sp_rest r).
+
+(* Serve with outstanding requests. [env k] is what the other goroutines did to
+   the table before iteration k of the loop. *)
+Fixpoint serve_p (c : cfg) (fuel : nat) (env : nat -> ptable -> ptable) (hf : nat -> handlers)
+  (idx k : nat) (tb : ptable) (p : pst) : sres_p :=
+  match fuel with
+  | O => mksp (Some EFuel) [] p
+  | S f =>
+      match his_p c (S (length (p_toks p))) (env k tb) (hf idx) p with
+      | (PH (HREnd EEOF), p', _) => mksp None [] p'
+      | (PH (HREnd e), p', _) => mksp (Some (send_error e)) [] p'
+      | (PH HRSkip, p', tb') => serve_p c f env hf idx (S k) tb' p'
+      | (PH (HRInv v), p', tb') =>
+          match v_ret v with
+          | Some e => mksp (Some (send_error e)) [EvInv v] p'
+          | None => sp_cons (EvInv v) (serve_p c f env hf (S idx) (S k) tb' p')
+          end
+      | (PDiv d, p', tb') =>
+          match d_ret d with
+          | Some e => mksp (Some (send_error e)) [EvDiv d] p'
+          | None => sp_cons (EvDiv d) (serve_p c f env hf idx (S k) tb' p')
+          end
+      end
+  end.
+
+Definition serve_all_p (c : cfg) (env : nat -> ptable -> ptable) (hf : nat -> handlers) (tb : ptable)
+  (toks : list token) : sres_p :=
+  serve_p c (S (length toks)) env hf 0 0 tb (mkp toks 0%N false).
+
+Fixpoint invs_of (evs : list event) : list inv :=
+  match evs with
+  | [] => []
+  | EvInv v :: r => v :: invs_of r
+  | EvDiv _ :: r => invs_of r
+  end.
+
+Fixpoint divs_of (evs : list event) : list dinv :=
+  match evs with
+  | [] => []
+  | EvDiv d :: r => d :: divs_of r
+  | EvInv _ :: r => divs_of r
+  end.
+
+Definition written_p (r : sres_p) : list token := flat_map (fun v => v_hw v ++ v_auto v) (invs_of (sp_events r)).
+
 (* everything written to the session's token writer during Serve *)
 Definition written (r : sres) : list token := flat_map (fun v => v_hw v ++ v_auto v) (s_invs r).
 
